@@ -115,6 +115,9 @@ type Machine struct {
 	foldMark    int
 	oneShotKind string
 	lastPanicAt string
+	speculative int
+	pendingSym  []*Term
+	noMerge     bool
 	fpSolver    *Solver
 	lastSolver  *Solver
 	thr         *threads
@@ -185,6 +188,7 @@ func (m *Machine) resetPath(prefix []int64) {
 	m.unknownBr = 0
 	m.foldMark = m.tt.SymFolds
 	m.oneShotKind = ""
+	m.speculative = 0
 	m.thr = nil
 	m.curFrame = nil
 }
@@ -296,6 +300,9 @@ func (m *Machine) branch(c *Term, why string) bool {
 	if m.pcSet[nc] {
 		return false
 	}
+	if m.speculative > 0 {
+		panic(specAbort{})
+	}
 	if d, ok := m.nextDecision(); ok {
 		switch d {
 		case 1:
@@ -337,6 +344,9 @@ func (m *Machine) branch(c *Term, why string) bool {
 
 // choice picks one of n alternatives; every alternative is explored.
 func (m *Machine) choice(n int, why string) int {
+	if m.speculative > 0 && n > 1 {
+		panic(specAbort{})
+	}
 	if n <= 0 {
 		panic(pathAbort{abortInfeasible, "choice over empty set: " + why})
 	}
@@ -391,6 +401,9 @@ func (m *Machine) termValue(t *Term) (uint64, bool) {
 func (m *Machine) concretize(t *Term, why string) int64 {
 	if t.IsConst() {
 		return t.SVal()
+	}
+	if m.speculative > 0 {
+		panic(specAbort{})
 	}
 	if d, ok := m.nextDecision(); ok {
 		m.addPC(m.tt.Eq(t, m.tt.Const(t.Sort, uint64(d))))
